@@ -9,7 +9,12 @@ TB = ("Lean 4.33.0 kernel; axioms propext/Classical.choice/Quot.sound only (audi
       "every run); hand-written model tied to /repo's working tree by differential execution on every "
       "run; CPython and spacepackets/crcmod semantics modelled, not verified")
 
-CHECKS = {
+import sys
+sys.path.insert(0, str(V / "harness"))
+from prop_meta import META_ALL, TB as TB2  # noqa: E402
+
+OLD = {
+
     "C18": dict(
         category="proof",
         text=("LostSegmentTracker modelled in Lean (Model/Tracker.lean); 10 theorems (Props/C18.lean) prove, "
@@ -45,6 +50,11 @@ CHECKS = {
         technique="Lean 4 decide +kernel over tables regenerated from the code (translator) + exhaustive enumeration",
     ),
 }
+
+CHECKS = dict(OLD)
+for pid, mm in META_ALL.items():
+    CHECKS[pid] = dict(category=mm["level"], text=mm["text"], design_ref=mm["design_ref"], technique=mm["technique"])
+CHECKS = dict(sorted(CHECKS.items()))
 
 NOT_YET = "check not built yet in this revision of /verif (work in progress, see DESIGN.md §10)"
 
